@@ -99,6 +99,7 @@ const (
 var phaseNames = [nPhases]string{"idle", "executing", "state-written", "index-written", "bulk-written", "quality-written", "finalized-written"}
 
 type impEv struct {
+	t0     uint64 // Done: stamp of the import's Begin
 	t      uint64
 	e      string // Begin | Skip | W | Done | Fail
 	b      thor.Bytes32
@@ -122,16 +123,17 @@ type foreignWrite struct {
 
 // runCtx is what the importer and the readers of one run share.
 type runCtx struct {
-	w        *world
-	node     *sim.Node
-	ctr      atomic.Uint64 // THE global stamp counter
-	phase    atomic.Uint32
-	stop     atomic.Bool
-	imp      []impEv // importer goroutine only
-	cur      thor.Bytes32
-	impG     uint64
-	foreign  []foreignWrite // appended under the kv engine's lock
-	failures []string
+	w           *world
+	node        *sim.Node
+	ctr         atomic.Uint64 // THE global stamp counter
+	phase       atomic.Uint32
+	stop        atomic.Bool
+	imp         []impEv // importer goroutine only
+	cur         thor.Bytes32
+	impG        uint64
+	foreign     []foreignWrite // appended under the kv engine's lock
+	failures    []string
+	afterImport func() // reference run only
 }
 
 func goid() uint64 {
@@ -200,9 +202,12 @@ func (rc *runCtx) importAll() {
 		class, err := n.Deliver(blk)
 		rc.phase.Store(phIdle)
 		t := rc.ctr.Add(1)
+		if rc.afterImport != nil {
+			rc.afterImport()
+		}
 		switch class {
 		case "ok":
-			rc.imp = append(rc.imp, impEv{t: t, e: "Done", b: id, bestID: n.Repo.BestBlockSummary().Header.ID(), finID: n.BFT.Finalized()})
+			rc.imp = append(rc.imp, impEv{t0: rc.imp[bi].t, t: t, e: "Done", b: id, bestID: n.Repo.BestBlockSummary().Header.ID(), finID: n.BFT.Finalized()})
 		case "known", "parent-missing", "unprocessable", "bft-rejected":
 			rc.imp[bi].e, rc.imp[bi].why = "Skip", class
 		default:
@@ -227,7 +232,7 @@ func (rc *runCtx) importAll() {
 		for j := bi; j < len(rc.imp); j++ { // the id is known only now
 			rc.imp[j].b = id
 		}
-		rc.imp = append(rc.imp, impEv{t: t, e: "Done", b: id, bestID: n.Repo.BestBlockSummary().Header.ID(), finID: n.BFT.Finalized()})
+		rc.imp = append(rc.imp, impEv{t0: rc.imp[bi].t, t: t, e: "Done", b: id, bestID: n.Repo.BestBlockSummary().Header.ID(), finID: n.BFT.Finalized()})
 	}
 	rc.cur = thor.Bytes32{}
 	// look-ahead annotations the trace spec binds at the step where the decision is taken
@@ -298,6 +303,22 @@ func (w *world) reference(tmp string) error {
 	rc := &runCtx{w: w, node: n}
 	rc.impG = goid()
 	n.KV.OnWrite = rc.onWrite
+	// deterministic probe (no concurrency): whenever the best block moves to a LOWER height, the block that was best
+	// a moment ago is still stored - GET /blocks/{its id} must answer
+	api := newAPI(n)
+	prevBest := n.Repo.BestBlockSummary()
+	rc.afterImport = func() {
+		best := n.Repo.BestBlockSummary()
+		if best.Header.Number() < prevBest.Header.Number() && len(w.refViol) == 0 {
+			url := "/blocks/" + prevBest.Header.ID().String()
+			if st, body := api.do("GET", url, ""); st != 200 {
+				w.refViol = append(w.refViol, violation{Sig: sigIsTrunk, Reader: "sequential probe (no readers)",
+					What: fmt.Sprintf("%s -> %d %s: a stored block above the best height (best moved from %s to %s)", url, st, body,
+						short(prevBest.Header.ID()), short(best.Header.ID()))})
+			}
+		}
+		prevBest = best
+	}
 	rc.importAll()
 	n.KV.OnWrite = nil
 	if len(rc.failures) > 0 {
